@@ -11,6 +11,7 @@ import Matreex.Model.Iter
 import Matreex.Lemmas.Matrix
 import Matreex.Lemmas.Views
 import Matreex.Props.C03
+import Matreex.Gen.OrderDispatch
 
 namespace Matreex.C06
 open Matreex
@@ -146,6 +147,20 @@ theorem outer_counts_agree (m : Matrix α) (h : m.Coh) (hfit : m.data.size ≤ u
   obtain ⟨rows, r1, r2, _⟩ := iterRows_spec m h hfit hext
   obtain ⟨cols, c1, c2, _⟩ := iterCols_spec m h hfit hext
   exact ⟨⟨rows, r1, by simpa [C03.nVectors] using r2⟩, ⟨cols, c1, by simpa [C03.nVectors] using c2⟩⟩
+
+/-- Tie T1 (re-extracted from src/iter.rs on every run): every row function uses the major axis of a
+row-major and the minor axis of a column-major matrix, every column function the other way round,
+and the two arms of each dispatch are the same call up to the axis -/
+theorem view_dispatch_duality :
+    (Gen.orderDispatch.filter (·.1 == "iter.rs")).map (fun r => (r.2.1, r.2.2.1, r.2.2.2.1, r.2.2.2.2)) =
+      [("iter_rows", "major", "minor", "self.iter_nth_{axis}_axis_vector_unchecked(n)"),
+       ("iter_cols", "minor", "major", "self.iter_nth_{axis}_axis_vector_unchecked(n)"),
+       ("iter_rows_mut", "major", "minor", "IterVectorsMut::over_{axis}_axis(self)"),
+       ("iter_cols_mut", "minor", "major", "IterVectorsMut::over_{axis}_axis(self)"),
+       ("iter_nth_row", "major", "minor", "self.iter_nth_{axis}_axis_vector(n)"),
+       ("iter_nth_col", "minor", "major", "self.iter_nth_{axis}_axis_vector(n)"),
+       ("iter_nth_row_mut", "major", "minor", "self.iter_nth_{axis}_axis_vector_mut(n)"),
+       ("iter_nth_col_mut", "minor", "major", "self.iter_nth_{axis}_axis_vector_mut(n)")] := by decide
 
 /-! ### non-vacuity -/
 def ex23 : Matrix Nat := ⟨.colMajor, ⟨3, 2⟩, #[1, 4, 2, 5, 3, 6]⟩   -- logical 2×3
